@@ -161,7 +161,7 @@ def parse_spec(path):
             m = {'invariant': '__CPROVER_loop_invariant(%s)', 'assigns': '__CPROVER_assigns(%s)',
                  'decreases': '__CPROVER_decreases(%s)'}[key]
             cur_loop.append(m % rest)
-        elif key in ('requires', 'ensures', 'assigns', 'frees', 'requires_local'):
+        elif key in ('requires', 'ensures', 'assigns', 'frees', 'requires_local', 'ensures_local', 'assigns_local', 'ensures_twin'):
             # requires_local: memory shape of the object the function is enforced on; not part of the contract that stands
             # in for recursive calls (@rec_twin), where that shape is the hereditary data-structure invariant
             cur_loop = None
